@@ -17,7 +17,11 @@
      (`create_file`/`append_file`, the writes of `script : List Bytes` in order, drop),
      `createOnly` (a `create_file` whose handle is never written) and `createClear p q script`
      (the session of the overlay: create, clear a marker `q`, write, drop).
-     `SimW` = `SimC` + `createClear` ("usable as the write layer of an overlay").
+     `SimW` = `SimC` + `createClear` + `clearT` ("usable as the write layer of an overlay";
+     `clearT q` is the tolerant clearing of a marker by `OverlayFS::create_dir` after the fix of
+     O11: probe `q`, remove it if it exists, a `FileNotFound` of the removal is swallowed — the
+     probe and the removal are ONE field because the kinds of `remove_file` alone agree only up
+     to `KRel`, which does not preserve `FileNotFound`).
      Parametricity of the `VfsPath` operations that do not iterate over listings.
   C. `Altroot.simC/simW` : the altroot adapter is parametric.
   (this file: A, B, C)
@@ -339,6 +343,30 @@ def appendSession (fs : FS) (p : Str) (script : List Bytes) : M Unit :=
 def clearAt (fs : FS) (q : Str) : M Unit :=
   fs.exists_ q >>= fun ex => if ex = true then fs.removeFile q else pure ()
 
+/-- swallow a `FileNotFound` (the handler of `clear_whiteout` in overlay.rs) -/
+def tolerate (m : M Unit) : M Unit := fun w =>
+  match m w with
+  | (.err .fileNotFound _, w') => (.ok (), w')
+  | r => r
+
+/-- remove `q` if it exists; a `FileNotFound` of the removal is not an error (the overlay's
+`clear_whiteout` in `create_dir`, fix of O11) -/
+def clearAtT (fs : FS) (q : Str) : M Unit :=
+  fs.exists_ q >>= fun ex => if ex = true then tolerate (fs.removeFile q) else pure ()
+
+theorem PathEq.tolerate {m m' : M Unit} (h : PathEq m m') : PathEq (tolerate m) (tolerate m') := by
+  intro w
+  obtain ⟨h1, h2⟩ := h w
+  unfold C02.tolerate
+  rcases e1 : m w with ⟨r, w'⟩
+  rcases e2 : m' w with ⟨r', w''⟩
+  rw [e1, e2] at h1 h2
+  simp only at h1 h2
+  subst h1
+  rcases h2 with rfl | ⟨k, p, p', rfl, rfl⟩
+  · exact ⟨rfl, Or.inl rfl⟩
+  · cases k <;> first | exact ⟨rfl, Or.inl rfl⟩ | exact ⟨rfl, Or.inr ⟨_, p, p', rfl, rfl⟩⟩
+
 /-- the session of `OverlayFS::create_file`: the marker is cleared while the handle is open -/
 def createClear (fs : FS) (p q : Str) (script : List Bytes) : M Unit :=
   fs.createFile p >>= fun h => clearAt fs q >>= fun _ => finish h script
@@ -371,6 +399,7 @@ structure SimW (R : World → World → Prop) (fs1 fs2 : FS) : Prop extends SimC
   appendSession : ∀ p s, Canon p → CSim R KRel (· = ·) (appendSession fs1 p s) (appendSession fs2 p s)
   createClear : ∀ p q s, Canon p → Canon q →
     CSim R KRel (· = ·) (createClear fs1 p q s) (createClear fs2 p q s)
+  clearT : ∀ q, Canon q → CSim R KRel (· = ·) (clearAtT fs1 q) (clearAtT fs2 q)
 
 /-- related paths: related filesystems, EQUAL canonical path strings -/
 structure SimVC (R : World → World → Prop) (v1 v2 : VPath) : Prop where
@@ -624,6 +653,23 @@ theorem sim_clearV {v1 v2 : VPath} (h : SimVC R v1 v2) : CSim R KRel (· = ·) (
   refine CSim.bind_eq (sim_exists h).ofEq fun ex => ?_
   exact CSim.ite (fun _ => sim_removeFile h) (fun _ => CSim.pure rfl)
 
+/-- remove the path if it exists, tolerating a `FileNotFound` of the removal -/
+def clearVT (v : VPath) : M Unit :=
+  v.exists_ >>= fun ex => if ex = true then tolerate v.removeFile else pure ()
+
+theorem clearVT_pathEq (v : VPath) : PathEq (clearVT v) (clearAtT v.fs v.path) := by
+  unfold clearVT clearAtT VPath.exists_ VPath.removeFile
+  refine PathEq.bind_right _ fun ex => ?_
+  by_cases h : ex = true
+  · rw [if_pos h, if_pos h]; exact PathEq.tolerate (PathEq.withPath _ _)
+  · rw [if_neg h, if_neg h]; exact PathEq.refl _
+
+theorem sim_clearVT {v1 v2 : VPath} (h : SimVW R v1 v2) :
+    CSim R KRel (· = ·) (clearVT v1) (clearVT v2) := by
+  refine CSim.of_pathEq (clearVT_pathEq v1) (clearVT_pathEq v2) ?_
+  rw [h.path]
+  exact h.fs.clearT _ h.canon
+
 /-- the overlay's session on its write layer: create at `vp`, clear `vq`, write, drop -/
 def createClear (vp vq : VPath) (script : List Bytes) : M Unit :=
   vp.createFile >>= fun h => clearV vq >>= fun _ => finish h script
@@ -720,6 +766,15 @@ theorem clearAt_fs (root : VPath) (q : Str) (hroot : Canon root.path) (hq : Cano
   congr 1
   exact fs_method root q hroot hq _
 
+theorem clearAtT_fs (root : VPath) (q : Str) (hroot : Canon root.path) (hq : Canon q) :
+    clearAtT (fs root) q = VPath.clearVT (root.withStr (root.path ++ q)) := by
+  unfold clearAtT VPath.clearVT
+  rw [fs_exists root q hroot hq]
+  congr 1
+  funext ex
+  congr 2
+  exact fs_method root q hroot hq _
+
 /-- … also as a write layer -/
 theorem simW (hroot : SimVW R root1 root2) : SimW R (fs root1) (fs root2) := by
   have hc1 : Canon root1.path := hroot.canon
@@ -727,7 +782,7 @@ theorem simW (hroot : SimVW R root1 root2) : SimW R (fs root1) (fs root2) := by
   have hsub : ∀ p, Canon p → SimVW R (root1.withStr (root1.path ++ p))
       (root2.withStr (root2.path ++ p)) := by
     intro p hp; rw [hroot.path]; exact hroot.withStr _ (Vfs.canon_append hroot.canon hp)
-  refine { toSimC := simC hroot.toC, appendSession := ?_, createClear := ?_ }
+  refine { toSimC := simC hroot.toC, appendSession := ?_, createClear := ?_, clearT := ?_ }
   · intro p s hp
     show CSim R _ _ ((M.ret (path root1 p) >>= _) >>= _) ((M.ret (path root2 p) >>= _) >>= _)
     rw [fs_method root1 p hc1 hp, fs_method root2 p hc2 hp]
@@ -741,6 +796,9 @@ theorem simW (hroot : SimVW R root1 root2) : SimW R (fs root1) (fs root2) := by
       (q2 := root2.withStr (root2.path ++ q)) (hsub p hp) ?_ (Vfs.canon_append hc1 hq) rfl rfl s
     show root2.path ++ q = root1.path ++ q
     rw [hroot.path]
+  · intro q hq
+    rw [clearAtT_fs root1 q hc1 hq, clearAtT_fs root2 q hc2 hq]
+    exact VPath.sim_clearVT (hsub q hq)
 
 end Altroot
 end param2
